@@ -89,7 +89,22 @@ Theorem C11_source_wrath_read_is_model : forall h s, length (cd_hdr h) = 4%nat -
   = wr_view (w_read_and_decrypt_server_header h s) s.
 Proof. exact wrath_read_server_translated. Qed.
 
+(* the remaining Wrath entry points are the model's functions: the Write wrappers hand the writer exactly
+   the bytes the typed helper returns (4 or 5 for a server header, 6 for a client header) and return the
+   writer's error; the server's Read wrapper reads 6 bytes before it touches the cipher *)
+Theorem C11_source_wrath_wrappers_are_model : forall (ce : client_enc) (se : server_enc) (sd : server_dec) w s size opcode,
+  length (se_buf se) = 5%nat ->
+  tr_wrath_write_encrypted_client_header apply_view (ce_rc4 ce) ([], w) size opcode = wwview ce_rc4 (w_write_encrypted_client_header ce w size opcode) /\
+  tr_wrath_write_encrypted_server_header apply_view (se_rc4 se) (se_buf se) ([], w) size opcode
+    = wwview (fun h => (se_rc4 h, se_buf h)) (w_write_encrypted_server_header se w size opcode) /\
+  tr_wrath_read_and_decrypt_client_header apply_view (sd_rc4 sd) s = srview (w_read_and_decrypt_client_header sd s) s.
+Proof.
+  intros ce se sd w s size opcode Hb.
+  split; [apply wrath_write_client_translated|]. split; [apply wrath_write_server_translated; exact Hb | apply wrath_read_client_translated].
+Qed.
+
 Print Assumptions C11_source_helpers_vanilla.
+Print Assumptions C11_source_wrath_wrappers_are_model.
 Print Assumptions C11_source_wrath_first_read_failure.
 Print Assumptions C11_source_wrath_read_is_model.
 Print Assumptions C11_source_read_failure.
